@@ -133,7 +133,7 @@ def layout(out, ed):
             else:
                 strcont[e["pos"]] = (j, CMT[e["b"]])
         elif t == "cpp":
-            pre[e["pos"]].append(("cpp", j, CPP[e["a"]]))
+            pre[e["pos"]].append(("cpp", j, CPP[e["a"]] + (CPP[e["b"]] if e.get("b") else [])))
         elif t == "garb":
             garb = e
         elif t == "sent":
@@ -286,6 +286,8 @@ def expected_leaves(beh, stmts):
                     exp.append(("c", AFTER_BREAK, 5, 1))      # place 5 comes with a second trailing comment on the next line
             else:
                 exp.append(("p", cpp_norm("\n".join(CPP[e["a"]])), e["a"]))
+                if e.get("b"):
+                    exp.append(("p", cpp_norm("\n".join(CPP[e["b"]])), e["b"]))
     return exp
 
 
